@@ -31,6 +31,6 @@ LoopMeetsSlots == result = "ok" => \A i \in DOMAIN Fields : KeptLines(kept, Fiel
 Export == (k = 1 /\ result = "none" /\ kept = <<>>) => PrintT(<<"BLOCKS", ToJson(bl)>>)
 
 \* the text table, for the harness to build the metadata dictionaries from
-LineTable == [f \in {Fields[i] : i \in DOMAIN Fields} |-> [x \in {"A", "B", "C", "H"} |-> L(f, x)]]
+LineTable == [s \in Shapes |-> [f \in {Fields[i] : i \in DOMAIN Fields} |-> LinesOf([shape |-> s], f)]]
 ASSUME PrintT(<<"LINES", ToJson(LineTable)>>)
 =============================================================================
